@@ -435,7 +435,21 @@ func Gen(prop, tier string, seed, run uint64) Plan {
 			break
 		}
 	}
-	if (prop == "C06" || prop == "C09" || prop == "C11" || prop == "C10") && r.IntN(3) == 0 {
+	if (prop == "C11" || prop == "C12") && r.IntN(4) == 0 {
+		// a long reference chain (every tag references the previous one)
+		names := []string{"mark/m", "service/s", "service/t", "tag/a", "tag/b", "tag/c"}
+		var chain []Op
+		for i, n := range names[:4+r.IntN(3)] {
+			def := fmt.Sprintf("id:%d", r.IntN(nStreams+1))
+			if i > 0 {
+				def = refName(names[i-1]) + []string{"", "", " protocol:tcp", " cbytes:1:"}[r.IntN(4)]
+			}
+			chain = append(chain, Op{C: CMut, K: "AddTag", Name: n, Color: "#fedcba", Def: def})
+		}
+		at := r.IntN(1 + len(mutOps)/4)
+		mutOps = append(mutOps[:at], append(chain, mutOps[at:]...)...)
+	}
+	if (prop == "C06" || prop == "C09" || prop == "C11" || prop == "C10" || prop == "C12") && r.IntN(3) == 0 {
 		// a reference chain that ends in a sub-query reference: X <- b (plain
 		// reference) <- a (sub-query over b); named so that generated references only point from later to earlier names (oracles.go rank); X changes through marks, edits and
 		// converter events, i.e. invalidations that reach a only by inheritance
@@ -584,8 +598,11 @@ func Gen(prop, tier string, seed, run uint64) Plan {
 	if prop == "C13" && r.IntN(3) == 0 {
 		p.Restarts = []int{8 + r.IntN(40)}
 	}
-	if (prop == "C05" || prop == "C10" || prop == "C07") && r.IntN(4) == 0 {
+	if (prop == "C05" || prop == "C10" || prop == "C07" || prop == "C06" || prop == "C16") && r.IntN(4) == 0 {
 		p.Restarts = []int{5 + r.IntN(40)}
+		if r.IntN(3) == 0 {
+			p.Restarts = append(p.Restarts, p.Restarts[0]+3+r.IntN(30))
+		}
 	}
 	if (prop == "C09" || prop == "C13" || prop == "C12" || prop == "C10" || prop == "C06") && r.IntN(5) == 0 {
 		// disk full while an import or merge writes its files
